@@ -116,6 +116,24 @@ pub fn bfs(
     visit: impl Fn(&mut Ctx, &HStep) + Sync,
     expand: impl Fn(&HStep) -> bool + Sync,
 ) -> HistStats {
+    bfs_shadow(make_ctx, files, init, max_depth, enabled, visit, expand, |_| String::new())
+}
+
+/// Like `bfs`, with a *shadow*: a value the oracle derives from the history alone (e.g. the text a front-end
+/// believes is being composed). It is part of the state key, so two histories are merged only when the real
+/// state AND the oracle's expectation agree — otherwise a change that makes an event a no-op would have its
+/// post-state merged into an older history that carries a different expectation.
+#[allow(clippy::too_many_arguments)]
+pub fn bfs_shadow(
+    make_ctx: impl Fn(usize) -> Ctx + Sync,
+    files: &BTreeMap<String, String>,
+    init: &[Vec<Ev>],
+    max_depth: usize,
+    enabled: impl Fn(&[Ev], Option<&Rend>, &Ctx) -> Vec<Ev> + Sync,
+    visit: impl Fn(&mut Ctx, &HStep) + Sync,
+    expand: impl Fn(&HStep) -> bool + Sync,
+    shadow: impl Fn(&[Ev]) -> String + Sync,
+) -> HistStats {
     let seen: Vec<Mutex<HashSet<u128>>> = (0..64).map(|_| Mutex::new(HashSet::new())).collect();
     let outcomes: Vec<Mutex<HashSet<u128>>> = (0..64).map(|_| Mutex::new(HashSet::new())).collect();
     // start states: the fresh context plus any given prefix histories (each must replay
@@ -167,7 +185,12 @@ pub fn bfs(
                     debug_assert!(r2.failed_at.is_none());
                     let out = ctx.apply(&ev);
                     transitions.fetch_add(1, Ordering::Relaxed);
-                    let key = state_key(ctx);
+                    let key = {
+                        let mut h2 = hist.clone();
+                        h2.push(ev.clone());
+                        let sh = shadow(&h2);
+                        if sh.is_empty() { state_key(ctx) } else { state_key(ctx) ^ h128(sh.as_bytes()).rotate_left(17) }
+                    };
                     if let Ok(Out::Sugg(rend)) = &out {
                         let ok = h128(rend.to_json().to_string().as_bytes());
                         outcomes[(ok % 64) as usize].lock().unwrap().insert(ok);
